@@ -233,3 +233,34 @@ Example C15_example_recover :
   recover toy_chk toy_dec 0 0 30 (zero_spans ex_ecc)
           (concat (map (fun j => x99 :: tl (firstn 27 (skipn (27 * j) ex_idx))) (seq 0 10))) = ex_ecc.
 Proof. vm_compute. repeat split; try reflexivity. discriminate. Qed.
+
+(* ------------------------------------------------------------------ *)
+(* C15_recover on the REAL (27,9) index code: enc / chk are the verified facade encoder and check of any of
+   the four codecs (Facade.fac_encode / fac_check, n = 27, k = 9).  chk_enc, enc_len and the minimum distance
+   (code_dist) are discharged from the Reed-Solomon algebra (Proofs/CodecInst.v); only decoder completeness
+   (at most 9 wrong bytes => the decoder returns the record) remains a hypothesis on the third-party decoder. *)
+From PFF Require Import Facade Proofs.CodecInst.
+
+Theorem C15_recover_rs : forall (algo : N) dec,
+  let enc := ienc algo 27 9 in let chk := ichk algo 27 9 in
+  dec_complete_hyp enc dec ->
+  forall pre es ecc' recs' bs,
+  let ecc := ecc_file pre es in
+  let offs := index_offsets (lenN pre) es in
+  (lenN ecc < 2 ^ 64)%N ->
+  length ecc' = length ecc ->
+  (forall i, nth_error ecc' i <> nth_error ecc i -> exists ko, In ko offs /\ in_span i ko) ->
+  Forall2 (fun r' ko => length r' = rsz /\ hamming r' (mk_record enc ko) <= 9) recs' offs ->
+  recover chk dec 0 0 bs ecc' (concat recs') = ecc.
+Proof.
+  intros algo dec enc chk Hd.
+  exact (C15_recover enc chk dec (index_chk_enc algo) (index_enc_len algo) (index_code_dist algo) Hd).
+Qed.
+Print Assumptions C15_recover_rs.
+
+(* the three codec hypotheses of C15_offsets_bytes / C15_partial / C15_recover hold for the real code *)
+Theorem C15_codec_hypotheses_rs : forall (algo : N),
+  let enc := ienc algo 27 9 in let chk := ichk algo 27 9 in
+  chk_enc_hyp enc chk /\ enc_len_hyp enc /\ code_dist_hyp chk.
+Proof. intros algo. split; [exact (index_chk_enc algo)|]. split; [exact (index_enc_len algo)|exact (index_code_dist algo)]. Qed.
+Print Assumptions C15_codec_hypotheses_rs.
